@@ -523,6 +523,8 @@ def search_xlsx_values():
     for v in (None, "a", 3, 2.5, True, False, datetime.timedelta(hours=1), "#DIV/0!", SAMPLE_DT, SAMPLE_DT.date(), SAMPLE_DT.time()):
         want = v.isoformat() if isinstance(v, (datetime.datetime, datetime.date, datetime.time)) else v
         r = _get_cell_value(v)
+        if isinstance(v, datetime.timedelta) and r == str(v):
+            continue        # a duration may come back as its text form
         if not same(r, want) or type(r) is not type(want):
             return {"target": "xlsx_extractor.py::_get_cell_value", "inputs": {"cell_value": repr(v)}, "expected": repr(want), "observed": repr(r)}
     return None
@@ -579,6 +581,13 @@ def find(req):
     if "/bounded#" in ob:
         r = search_shapes(ob)
         return dict(r, reproduced=True) if r else {"reproduced": False, "note": "small native scope satisfies the clause"}
+    if "pptx_extractor.py::_extract_table_from_graphic_frame" in ob:
+        # symbolic-shape obligation (invariants / ensures): look for any clause of the grid spec failing natively
+        for clause in ("rows-and-cells-are-the-direct-ones", "cell-holds-its-own-text", "tables-in-document-order"):
+            r = search_shapes("C13/pptx_extractor.py::_extract_table_from_graphic_frame/bounded#" + clause)
+            if r:
+                return dict(r, reproduced=True)
+        return {"reproduced": False, "note": "pptx grids agree natively on the small scope"}
     if "get_dim" in ob or "get_table" in ob:
         r = search_dims()
         return dict(r, reproduced=True) if r else {"reproduced": False, "note": "get_dim/get_table agree with the spec on the native scope"}
